@@ -283,6 +283,8 @@ impl SubscriptionActor {
         if self.deleted {
             // A deletion is already in progress: respond once it has completed.
             let deleted = self.observer.deleted();
+            #[cfg(deltio_verif)]
+            crate::verif::label(|| format!("sub-delete-wait:{}", self.info.name));
             tokio::spawn(async move {
                 deleted.await;
                 let _ = responder.send(Ok(()));
@@ -291,6 +293,8 @@ impl SubscriptionActor {
         }
 
         self.deleted = true;
+        #[cfg(deltio_verif)]
+        crate::verif::point("subscription.delete.marked");
         self.outstanding.clear();
         self.backlog.clear();
 
@@ -299,6 +303,8 @@ impl SubscriptionActor {
         let delegate = self.delegate.clone();
         let observer = Arc::clone(&self.observer);
         let push_registry = self.push_registry.clone();
+        #[cfg(deltio_verif)]
+        crate::verif::label(|| format!("sub-delete:{}", name));
         tokio::spawn(async move {
             // If the topic is still around, remove ourselves from it's list of subscriptions.
             if let Some(topic) = topic {
@@ -310,13 +316,19 @@ impl SubscriptionActor {
                 }
             }
 
+            #[cfg(deltio_verif)]
+            crate::verif::point("subscription.delete.detached");
             delegate.delete(&name);
+            #[cfg(deltio_verif)]
+            crate::verif::point("subscription.delete.unregistered");
 
             // Unregister the subscription from push.
             push_registry.set(name, None);
 
             // This also stops the actor.
             observer.notify_deleted();
+            #[cfg(deltio_verif)]
+            crate::verif::point("subscription.delete.notified");
             let _ = responder.send(Ok(()));
         });
     }
